@@ -145,7 +145,7 @@ class _LayoutBase(Prop):
         "and two-space units to layout tokens and anything else to a junk token",
         "eol strings are drawn from {LF, CRLF, a private-use marker, the empty string}",
     ]
-    EOLS = ["\n", "", "\r\n", "\ue003"]
+    EOLS = ["\n", "", "\r\n", "\ue003", "\n\n", " | ", "\t"]
 
     def model_runs(self, tier):
         runs = [{"module": "Render", "cfg": f"Render_{tier}.cfg"}]
